@@ -44,9 +44,31 @@ func tableUses(st *sqlp.Stmt) []*tableUse {
 		if s == nil {
 			return
 		}
-		conj := sqlp.Conjuncts(s.Where)
-		for _, t := range s.From {
-			conj = append(conj, sqlp.Conjuncts(t.On)...)
+		// conjuncts that filter the rows of the j-th table: the WHERE clause, and the ON clauses
+		// with regard to outer joins (an ON condition of `A LEFT JOIN B` filters B only, A's rows
+		// are all preserved; RIGHT JOIN symmetrically; FULL JOIN filters neither)
+		conjFor := func(j int) []*sqlp.Expr {
+			conj := append([]*sqlp.Expr{}, sqlp.Conjuncts(s.Where)...)
+			for i, t := range s.From {
+				if t.On == nil {
+					continue
+				}
+				kind := strings.ToUpper(t.Join)
+				switch {
+				case strings.Contains(kind, "LEFT"):
+					if j != i {
+						continue
+					}
+				case strings.Contains(kind, "RIGHT"):
+					if j >= i {
+						continue
+					}
+				case strings.Contains(kind, "FULL"):
+					continue
+				}
+				conj = append(conj, sqlp.Conjuncts(t.On)...)
+			}
+			return conj
 		}
 		var block []*tableUse
 		for i := range s.From {
@@ -58,7 +80,7 @@ func tableUses(st *sqlp.Stmt) []*tableUse {
 			if cte[lower(t.Name)] {
 				continue
 			}
-			block = append(block, &tableUse{Table: lower(t.Name), RefName: lower(t.RefName()), Role: "from", Conjuncts: conj})
+			block = append(block, &tableUse{Table: lower(t.Name), RefName: lower(t.RefName()), Role: "from", Conjuncts: conjFor(i)})
 		}
 		for _, u := range block {
 			u.Siblings = append(append([]*tableUse{}, block...), outer...)
